@@ -32,10 +32,18 @@ RULE = ("programs = generated Python modules (unique names) over the GraphQL-com
         "apischema-invalid data (constraints, validators, custom scalars), all passed through variables whose type strings are read from the "
         "built schema; raising resolvers under each error_handler kind. A case = (program, experiment kind, construct); distinct by hash.")
 ASSUMPTIONS = ["the model of the mapping is written from docs/graphql/*.md; GraphQL Int is 32 bit, so generated integers stay small",
-               "nullability of Any/JSON, list coercion of single values, explicit null for non-Optional parameters with unserialisable defaults, "
-               "ID types that are not strings and non-primitive conversion targets are not generated (docs silent)",
+               "not generated (docs silent => outside the oracle): Any/JSON nullability, list coercion of single values, explicit null for "
+               "non-Optional parameters with unserialisable defaults, ID types that are not strings, non-primitive conversion targets, "
+               "omitting a required (default-less) Optional parameter",
+               "ill-formed programs, never generated or skipped + counted: unnamed Literal, colliding GraphQL field names after flattening / "
+               "inheritance (illformed:field-name-collision), class-level aliaser inside an interface hierarchy (would rename inherited interface "
+               "fields in the implementer only), re-raising (NoReturn) handlers on classes when the program has a union (an unsupported union "
+               "alternative is dropped silently, which would blur attribution)",
+               "a default is 'unserializable' (=> nullable, no schema default, Python default at execution) when apischema cannot build the "
+               "serialization method of its declared type (conversion class without serializer, also inside List / Union[..., UndefinedType] / objects)",
                "argument validity is decided by the real deserialize(param_type, data, aliaser=...) for data that are well-typed for GraphQL; "
                "data built to be ill-typed for GraphQL (wrong scalar class, unknown enum name, missing / unknown input field, null in non-null list) must be rejected",
+               "type names carry a per-program suffix: typing caches List['X'] / ForwardRef('X') objects with their evaluated value process-wide",
                "caches are reset per program"]
 
 
